@@ -145,18 +145,17 @@ impl vstd::std_specs::cmp::PartialEqSpecImpl for Cursor {
            ensures=[('wellformed', 'r is Ok ==> wf_cursor(r->Ok_0)')]),
     ], verus_header='impl Cursor')
     u.impl('src/types.rs', 'impl Cursor', [
-        Fn('shift', props=P4, ret='r',
-           requires=[('no_overflow', '''match *self {
-                Cursor::BeginAligned(c) => distance != isize::MIN && c + distance <= usize::MAX,
-                Cursor::EndAligned(c) => c <= 0 && c != isize::MIN && distance != isize::MIN && isize::MIN <= c + distance }''')],
+        # total: a shift that leaves the range of positions of the cursor's kind (below 0 / above usize::MAX for a begin-aligned
+        # cursor, above 0 / below isize::MIN for an end-aligned one) is an error, never an overflow
+        Fn('shift', props=P4 + ['C19'], ret='r',
            ensures=[('wf', 'wf_cursor(*self) && r is Ok ==> wf_cursor(r->Ok_0)'),
                     ('value', '''r is Ok ==> match (*self, r->Ok_0) {
                         (Cursor::BeginAligned(c), Cursor::BeginAligned(n)) => n == c + distance,
                         (Cursor::EndAligned(c), Cursor::EndAligned(n)) => n == c + distance,
                         _ => false }'''),
-                    ('ok_iff', '''r is Ok <==> match *self {
-                        Cursor::BeginAligned(c) => c + distance >= 0,
-                        Cursor::EndAligned(c) => distance <= -c }''')]),
+                    ('ok_iff', '''wf_cursor(*self) ==> (r is Ok <==> match *self {
+                        Cursor::BeginAligned(c) => 0 <= c + distance <= usize::MAX,
+                        Cursor::EndAligned(c) => isize::MIN <= c + distance <= 0 })''')]),
     ])
     u.impl('src/selector.rs', 'impl Offset', [
         Fn('new', props=P4, ret='r', ensures=[('fields', 'r.begin == begin && r.end == end')]),
